@@ -12,7 +12,7 @@ import time
 import z3
 
 from harness import C35_shapes as S
-from vt import glue, irsem
+from vt import glue, irsem, shapex
 from vt.common import HarnessError
 
 from hail.ir.renderer import CSERenderer, PlainRenderer  # noqa: E402  (loader installed by C35_shapes)
@@ -88,7 +88,7 @@ def seq_names(n):
     return out
 
 
-def analyse(root, env, strict):
+def analyse(root, env, strict, strict_eval_all=False):
     """Render with both real renderers, read and evaluate both texts.
     Returns dict(kind=..., differs=z3 Bool or True, ...)."""
     x = S.to_ir(root)
@@ -99,6 +99,10 @@ def analyse(root, env, strict):
         return {'plain': plain, 'cse': f'<{type(e).__name__}: {e}>', 'lets': False, 'kind': 'crash', 'differs': True,
                 'why': f'CSERenderer raised {type(e).__name__}: {e}'}
     out = {'plain': plain, 'cse': cse, 'lets': cse.count('__cse_') > 0}
+    if not strict_eval_all and irsem._TOK.findall(plain) == irsem._TOK.findall(cse):
+        # token-identical texts have the same parse and the same value: the path contributes `false`
+        out.update(kind='identical', differs=False, syntactic=True)
+        return out
     try:
         tp = irsem.read(plain)
         e1 = irsem.Evaluator()
@@ -166,24 +170,56 @@ def shard_prefixes(family, n, shadow, depth):
     return [tuple(x for x in p if x is not None) for p in shards]
 
 
-def run_shard(family, n, shadow, pins, batch=400, timeout_ms=120000, twin=True):
+class _Out:
+    __slots__ = ('pc', 'value')
+
+    def __init__(self, pc, value):
+        self.pc = pc
+        self.value = value
+
+
+def _formula(o):
+    d = o.value['differs']
+    pc = z3.And(o.pc) if o.pc else z3.BoolVal(True)
+    return pc if d is True else z3.And(pc, d)
+
+
+def _witness(o, m, family, n, shadow):
+    vals = {}
+    for nm in LEAF_VARS:
+        var = z3.Bool(nm) if (nm == 'p' or '_has' in nm) else (
+            z3.BitVec(nm, 64 if nm in ('y', 'B_0', 'B_1') else 32))
+        mv = m.eval(var, model_completion=True)
+        vals[nm] = z3.is_true(mv) if z3.is_bool(mv) else _signed(mv)
+    v = o.value
+    return {'family': family, 'n': n, 'shadow': shadow, 'choices': v['choices'], 'leaves': vals,
+            'kind': v['kind'], 'why': v.get('why'), 'cls': v['cls'], 'shape': v['shape'],
+            'plain': v['plain'], 'cse': v['cse']}
+
+
+def run_shard(family, n, shadow, pins, batch=300, timeout_ms=120000, max_cex=12):
     """Explore every shape whose first choices are `pins`.  Returns a summary dict (picklable)."""
     t0 = time.time()
     strict = family == 'strict'
     env = leaves_env()
     cvars = [z3.Int(f'c{i}') for i in range(len(pins))]
-    ex = glue.Explorer(constraints=[cvars[i] == pins[i] for i in range(len(pins))], max_paths=10 ** 7,
-                       max_decisions=400)
-    stats = {'paths': 0, 'dead': 0, 'with_lets': 0, 'syntactic_ok': 0, 'shared': 0}
+    ex = shapex.ShapeExplorer(constraints=[cvars[i] == pins[i] for i in range(len(pins))], max_paths=10 ** 8,
+                              max_decisions=400)
+    stats = {'paths': 0, 'dead': 0, 'identical_text': 0, 'with_lets': 0, 'syntactic_ok': 0, 'shared': 0, 'known_class_paths': 0}
+    res = {'queries': 0, 'unknown': 0, 'reach': 0, 'cex': [], 'solve_s': 0.0, 'samples': [], 'let_samples': []}
+    solver = z3.Solver()
+    solver.set('timeout', timeout_ms)
+    pending = {'new': [], 'known': []}
+    seen_cls = set()
 
-    def body(_db):
+    def body():
         k = [0]
         seq = []
 
         def ch(opts):
             name = f'c{k[0]}'
             k[0] += 1
-            o = glue.choose(name, opts)
+            o = shapex.choose(name, opts)
             seq.append(opts.index(o))
             return o
         try:
@@ -197,88 +233,85 @@ def run_shard(family, n, shadow, pins, batch=400, timeout_ms=120000, twin=True):
         r['cls'] = known_class(root)
         stats['paths'] += 1
         stats['with_lets'] += 1 if r['lets'] else 0
+        stats['identical_text'] += 1 if r['kind'] == 'identical' else 0
         stats['syntactic_ok'] += 1 if r.get('syntactic') else 0
         stats['shared'] += 1 if S.shared_count(root) else 0
+        stats['known_class_paths'] += 1 if r['cls'] else 0
+        for key in ('v1', 'v2', 'err1', 'err2'):
+            r.pop(key, None)
         return r
 
-    outs = ex.run(_NoDb(), body)
-    for o in outs:
-        if o.exc is not None:
-            raise HarnessError(f'builder/renderer raised on a path: {type(o.exc).__name__}: {o.exc}')
-    explore_s = time.time() - t0
-    # ---- the deciding queries: per batch, one query over shape integers and leaves ---------------------
-    t1 = time.time()
-    queries = 0
-    cex = []
-    unknown = 0
-    samples = []
-    solver = z3.Solver()
-    solver.set('timeout', timeout_ms)
-    for cls_filter in ('new', 'known'):
-        sel = [o for o in outs if (o.value['cls'] is None) == (cls_filter == 'new')]
-        for i in range(0, len(sel), batch):
-            chunk = sel[i:i + batch]
-            pending = list(chunk)
-            while pending:
-                disj = []
-                for o in pending:
-                    d = o.value['differs']
-                    pc = z3.And(o.pc) if o.pc else z3.BoolVal(True)
-                    disj.append(pc if d is True else z3.And(pc, d))
-                solver.push()
-                solver.add(z3.Or(disj))
-                r = str(solver.check())
-                queries += 1
-                if r == 'unsat':
-                    solver.pop()
-                    break
-                if r != 'sat':
-                    solver.pop()
-                    unknown += len(pending)
-                    break
+    def solve(which):
+        """One query for the whole batch: exists shape integers and leaf values violating the claim."""
+        chunk = pending[which]
+        pending[which] = []
+        t1 = time.time()
+        first = True
+        while chunk:
+            solver.push()
+            solver.add(z3.Or([_formula(o) for o in chunk if o.value['differs'] is not False]))
+            r = str(solver.check())
+            res['queries'] += 1
+            if r == 'sat':
                 m = solver.model()
+            solver.pop()
+            if first:
+                # reachability twin of the batch: same path conditions, assertion replaced by false
+                solver.push()
+                solver.add(z3.Or([z3.And(o.pc) if o.pc else z3.BoolVal(True) for o in chunk]))
+                if str(solver.check()) == 'sat':
+                    res['reach'] += 1
+                res['queries'] += 1
                 solver.pop()
-                hit = None
-                for o in pending:
-                    d = o.value['differs']
-                    pc = z3.And(o.pc) if o.pc else z3.BoolVal(True)
-                    f = pc if d is True else z3.And(pc, d)
-                    if z3.is_true(m.eval(f, model_completion=True)):
-                        hit = o
-                        break
-                if hit is None:
-                    raise HarnessError('sat model satisfies no disjunct')
-                vals = {}
-                for nm in LEAF_VARS:
-                    var = z3.Bool(nm) if (nm == 'p' or '_has' in nm) else (
-                        z3.BitVec(nm, 64 if nm in ('y', 'B_0', 'B_1') else 32))
-                    mv = m.eval(var, model_completion=True)
-                    vals[nm] = z3.is_true(mv) if z3.is_bool(mv) else _signed(mv)
-                v = hit.value
-                cex.append({'family': family, 'n': n, 'shadow': shadow, 'choices': v['choices'], 'leaves': vals,
-                            'kind': v['kind'], 'why': v.get('why'), 'cls': v['cls'], 'shape': v['shape'],
-                            'plain': v['plain'], 'cse': v['cse']})
-                # one witness per class and shard is enough; drop every path of that class from this batch
-                pending = [o for o in pending if o is not hit and o.value['cls'] != v['cls']] if v['cls'] else \
-                    [o for o in pending if o is not hit]
-                if len(cex) > 20:
-                    pending = []
-    # reachability twin: the same path conditions with the assertion replaced by false are satisfiable
-    reach = 0
-    if twin and outs:
-        solver.push()
-        solver.add(z3.Or([z3.And(o.pc) if o.pc else z3.BoolVal(True) for o in outs[:batch]]))
-        reach = 1 if str(solver.check()) == 'sat' else 0
-        queries += 1
-        solver.pop()
-    for o in outs[:2]:
-        samples.append({'choices': o.value['choices'], 'shape': o.value['shape'], 'cse': o.value['cse'][:300]})
-    lets = [o for o in outs if o.value['lets']]
-    for o in lets[:2]:
-        samples.append({'choices': o.value['choices'], 'shape': o.value['shape'], 'cse': o.value['cse'][:300]})
-    return {'family': family, 'n': n, 'shadow': shadow, 'pins': list(pins), 'stats': stats, 'queries': queries,
-            'cex': cex, 'unknown': unknown, 'reach': reach, 'explore_s': round(explore_s, 2),
-            'solve_s': round(time.time() - t1, 2), 'solver_calls_explorer': ex.solver_calls, 'samples': samples}
+                first = False
+            if r == 'unsat':
+                break
+            if r != 'sat':
+                res['unknown'] += len(chunk)
+                break
+            hit = None
+            for o in chunk:
+                if o.value['differs'] is not False and z3.is_true(m.eval(_formula(o), model_completion=True)):
+                    hit = o
+                    break
+            if hit is None:
+                raise HarnessError('sat model satisfies no disjunct')
+            if len(res['cex']) < max_cex:
+                res['cex'].append(_witness(hit, m, family, n, shadow))
+            cls = hit.value['cls']
+            # one witness per known class is enough; an unclassified one is reported individually
+            if cls:
+                seen_cls.add(cls)
+                chunk = [o for o in chunk if o.value['cls'] != cls]
+            else:
+                chunk = [o for o in chunk if o is not hit]
+            if len(res['cex']) >= max_cex:
+                res['truncated'] = True
+                break
+        res['solve_s'] += time.time() - t1
+
+    def on_outcome(pc, value):
+        which = 'known' if value['cls'] else 'new'
+        if value['cls'] in seen_cls:
+            return                   # class already witnessed in this shard
+        if len(res['samples']) < 2:
+            res['samples'].append({'choices': value['choices'], 'shape': value['shape'], 'cse': value['cse'][:300]})
+        elif value['lets'] and len(res['let_samples']) < 2:
+            res['let_samples'].append({'choices': value['choices'], 'shape': value['shape'],
+                                       'cse': value['cse'][:300]})
+        pending[which].append(_Out(list(pc), value))
+        if len(pending[which]) >= batch:
+            solve(which)
+
+    ex.explore(body, on_outcome)
+    solve('new')
+    solve('known')
+    total = time.time() - t0
+    return {'family': family, 'n': n, 'shadow': shadow, 'pins': list(pins), 'stats': stats,
+            'queries': res['queries'], 'cex': res['cex'], 'unknown': res['unknown'], 'reach': res['reach'],
+            'truncated': res.get('truncated', False), 'explore_s': round(total - res['solve_s'], 2),
+            'solve_s': round(res['solve_s'], 2), 'solver_calls_explorer': ex.solver_calls,
+            'samples': res['samples'] + res['let_samples']}
 
 
 def _signed(mv):
@@ -303,7 +336,7 @@ def rebuild(choices, family, n, shadow):
 def replay_concrete(d):
     """Re-run one counterexample concretely on the real renderers.  Returns (violates: bool, message)."""
     root = rebuild(d['choices'], d['family'], d['n'], d.get('shadow', False))
-    r = analyse(root, leaves_from_values(d['leaves']), d['family'] == 'strict')
+    r = analyse(root, leaves_from_values(d['leaves']), d['family'] == 'strict', strict_eval_all=True)
     if r['differs'] is True:
         return True, f"{r['kind']}: {r['why']}\n  cse:   {r['cse']}\n  plain: {r['plain']}"
     dv = z3.simplify(r['differs'])
@@ -311,7 +344,9 @@ def replay_concrete(d):
         m = z3.Solver()
         m.check()
         mm = m.model()
-        return True, (f"values differ: plain={irsem.concretize(r['v1'], mm)} cse={irsem.concretize(r['v2'], mm)}"
+        e1, e2 = z3.is_true(z3.simplify(r['err1'])), z3.is_true(z3.simplify(r['err2']))
+        return True, (f"outcomes differ: plain={'ERROR' if e1 else irsem.concretize(r['v1'], mm)} "
+                      f"cse={'ERROR' if e2 else irsem.concretize(r['v2'], mm)}"
                       f"\n  cse:   {r['cse']}\n  plain: {r['plain']}")
     if z3.is_false(dv):
         return False, 'values equal'
